@@ -38,3 +38,9 @@ Example C02_example :
   let d := [0;0;132;0;0;0;0;1;0;0;0;0; 1;97;5;108;111;99;97;108;0; 0;12;0;1; 0;0;0;120; 0;4; 1;98;192;14] in
   match strict_parse d 7 with Some m => s_supported m = true /\ length (s_records m) = 1%nat | None => False end.
 Proof. vm_compute. split; reflexivity. Qed.
+
+(* ---- the model's comparisons are the ones the source writes now (Gen/Sites.v is regenerated from /repo on every run; the conjuncts,
+   with the model line each stands for, are spelled out in Proofs/Sites_ops.v) ---- *)
+From ZC Require Import Gen.Sites Proofs.Sites_ops.
+Theorem C02_site_ops : sites_C02_ops. Proof. exact sites_C02_ops_ok. Qed.
+Print Assumptions C02_site_ops.
